@@ -11,6 +11,10 @@ spec["call_args"] = [ [file, function, anchor-regex with two groups, gallina-nam
 spec["via"]       = [ [file, function, assign-regex (groups: variable, string literal), use-regex (groups: key, variable),
                        {key: gallina-name}], ... ]
   which string literal reaches which use through a local variable: emits <gallina-name> : list Z for every key.
+spec["one_of"]    = [ [file, function, anchor-regex with one group, gallina-name, {c-text: int}], ... ]   (raw text)
+  the anchor must match exactly once; the group (whitespace removed) is mapped through the dictionary -> <name> : Z.
+spec["count"]     = [ [file, function, regex, gallina-name], ... ]   (raw text)
+  <name> : Z := number of matches inside the function body (0 is allowed: the definition then says so).
 """
 import re
 
@@ -46,6 +50,21 @@ def emit(repo, spec, H):
         out.append("(* %s: %s: %s *)" % (f, fn, " ".join(ms[0].group(0).split()).replace("*)", "* )").replace("(*", "( *")))
         out.append("Definition %s_L : Z := %d." % (name, vals[0]))
         out.append("Definition %s_R : Z := %d." % (name, vals[1]))
+    for f, fn, anchor, name, mapping in spec.get("one_of", []):
+        body = H.func_body(H.raw(repo, f), fn)
+        ms = list(re.finditer(anchor, body, flags=re.S))
+        if len(ms) != 1:
+            raise ValueError("%s:%s: anchor %r matched %d times (need exactly 1)" % (f, fn, anchor, len(ms)))
+        t = "".join(ms[0].group(1).split())
+        if t not in mapping:
+            raise ValueError("%s:%s: unexpected text %r" % (f, fn, t))
+        out.append("(* %s: %s: %s *)" % (f, fn, " ".join(ms[0].group(0).split()).replace("*)", "* )").replace("(*", "( *")))
+        out.append("Definition %s : Z := %d." % (name, mapping[t]))
+    for f, fn, rx, name in spec.get("count", []):
+        body = H.func_body(H.raw(repo, f), fn)
+        n = len(re.findall(rx, body, flags=re.S))
+        out.append("(* %s: %s: occurrences of /%s/ *)" % (f, fn, rx.replace("*)", "* )").replace("(*", "( *")))
+        out.append("Definition %s : Z := %d." % (name, n))
     for f, fn, assign, use, keys in spec.get("via", []):
         body = H.func_body(H.src(repo, f), fn)
         var2lit = {}
